@@ -23,6 +23,8 @@ from .. import lib_text as T
 CLAUSES = {
     'tokens': 'the tokens read from the wrapped lines differ from the tokens of the unwrapped text',
     'statement-split': 'a line is not continued: the wrapped text reads as more than one statement',
+    'lone-ampersand': 'a line holds nothing but `&` (not allowed in free form; the statement ends there)',
+    'stray-ampersand': 'an `&` that is not a continuation marker is part of the text',
     'line-long': 'a line with several breakable tokens is longer than the width',
     'line-near': 'a line is longer than the width although its longest token is not (token + continuation markers do not fit)',
 }
@@ -41,77 +43,224 @@ def universe(ctx):
     return u
 
 
-def jsl_case(top, width, cont):
-    c0, c1 = T.chars(cont['c0']), T.chars(cont['c1'])
-    obj = T.build_jsl(top, width, (c0 + '\n', c1))
-    out = str(obj)
-    return {'lvl': 1, 'top': top, 'width': width, 'cont0': cont['c0'], 'cont1': cont['c1'], 'flat': T.codes(T.flat_text(top)),
-            'out': T.lines_codes(out), 'wide': []}
+def jsl_case(top, configs):
+    runs = []
+    for w, cont in configs:
+        c0, c1 = T.chars(cont['c0']), T.chars(cont['c1'])
+        out = str(T.build_jsl(top, w, (c0 + '\n', c1)))
+        runs.append({'width': w, 'cont0': cont['c0'], 'cont1': cont['c1'], 'out': T.lines_codes(out)})
+    return {'lvl': 1, 'top': top, 'flat': T.codes(T.flat_text(top)), 'runs': runs, 'wide': [], 'out': [], 'width': 0}
 
 
 def level1(ctx):
     if ctx.replay and ctx.replay['case'].get('lvl') == 1:
         rc = ctx.replay['case']
-        combos = [(rc['top'], rc['width'], rc['cont'])]
+        tops, configs = [rc['top']], [(rc['width'], rc['cont'])]
     else:
         u = universe(ctx)
-        combos = [(t, w, c) for t in u['tops'] for w in u['widths'] for c in u['conts']]
-        ctx.cover['level1_universe_cases'] = len(combos)
-        if ctx.quick:
-            # the quick universe is enumerated completely up to a budget; beyond it a seeded sample
-            budget = 24000
-            if len(combos) > budget:
-                combos = ctx.rng.sample(combos, budget)
-    cases = []
-    raised = []
-    for top, w, c in combos:
+        tops = u['tops']
+        configs = [(w, c) for w in u['widths'] for c in u['conts']]
+        ctx.cover['level1_universe_cases'] = len(tops) * len(configs)
+        budget = int(os.environ.get('C04_L1_BUDGET', '0')) or None
+        if budget and len(tops) > budget:
+            tops = ctx.rng.sample(tops, budget)
+    cases, raised = [], []
+    for top in tops:
         try:
-            cases.append(jsl_case(top, w, c))
+            cases.append(jsl_case(top, configs))
         except MachineryError:
             raise
         except Exception as e:  # pylint: disable=broad-except
-            raised.append((top, w, c, e))
-            cases.append(None)
-    live = [c for c in cases if c is not None]
-    verdicts = ctx.validate('Trace_LineWrap', 'Trace_LineWrap', live, timeout=3000, per_shard_min=400)
-    k = 0
+            raised.append((top, e))
+    verdicts = ctx.validate('Trace_LineWrap', 'Trace_LineWrap', cases, timeout=3000, per_shard_min=100)
     nbad = 0
     clause_count = {}
-    for (top, w, c), case in zip(combos, cases):
-        if case is None:
-            continue
+    by_width = {}
+    for k, case in enumerate(cases):
         ok, clause, n = verdicts[k][:3]
-        if not ok:
-            if clause.startswith('machinery'):
-                raise MachineryError(f'level (i): {clause} for {top} (harness built other items than the spec describes)')
-            _f, cl, pos, _p2 = verdicts[f'{k}#1'][:4]
+        if ok:
+            continue
+        if clause.startswith('machinery'):
+            raise MachineryError(f"level (i): {clause} for {case['top']} (the harness built other items than the spec describes)")
+        top = case['top']
+        for i in range(1, n + 1):
+            _f, cl, r, pos = verdicts[f'{k}#{i}'][:4]
+            run_ = case['runs'][r - 1]
             nbad += 1
             clause_count[cl] = clause_count.get(cl, 0) + 1
-            key = f'jsl:{cl}:{T.shape_of(top)}'
-            text = '\n'.join(T.chars(l) for l in case['out'])
-            ctx.violation(key, f"JoinableStringList {CLAUSES.get(cl, cl)} (at {pos}); width={w} cont={T.chars(c['c0'])!r}+{T.chars(c['c1'])!r} "
-                               f"items={T.flat_text(top)!r}\n--- printed ---\n{text}",
-                          {'lvl': 1, 'top': top, 'width': w, 'cont': c})
-        k += 1
-    for top, w, c, e in raised:
+            text = '\n'.join(T.chars(l) for l in run_['out'])
+            reg = T.regime(top, run_['width'], len(run_['cont0']) + len(run_['cont1']))
+            by_width[run_['width']] = by_width.get(run_['width'], 0) + 1
+            ctx.violation(f'jsl:{cl}:{reg}',
+                          f"JoinableStringList [{T.shape_of(top)}]: {CLAUSES.get(cl.split(':')[0], cl)} (at {pos}); width={run_['width']} "
+                          f"cont={T.chars(run_['cont0'])!r}+{T.chars(run_['cont1'])!r} items={T.flat_text(top)!r}\n--- printed ---\n{text}",
+                          {'lvl': 1, 'top': top, 'width': run_['width'], 'cont': {'c0': run_['cont0'], 'c1': run_['cont1']}})
+    for top, e in raised:
         ctx.violation(f'jsl:raises:{type(e).__name__}:{T.shape_of(top)}', f'str(JoinableStringList) raised {type(e).__name__}: {e} for items '
-                      f'{T.flat_text(top)!r} width={w}', {'lvl': 1, 'top': top, 'width': w, 'cont': c})
-    ctx.cover['level1_cases'] = len(live)
+                      f'{T.flat_text(top)!r}', {'lvl': 1, 'top': top, 'width': configs[0][0], 'cont': configs[0][1]})
+    nruns = sum(len(c['runs']) for c in cases)
+    ctx.cover['level1_lists'] = len(cases)
+    ctx.cover['level1_cases'] = nruns
     ctx.cover['level1_rejected'] = nbad
     ctx.cover['level1_rejected_by_clause'] = clause_count
-    ctx.cover['level1_wrapped_outputs'] = sum(1 for c in live if len(c['out']) > 1)
-    if live:
-        c = live[len(live) // 2]
-        ctx.sample({'level': 1, 'items': T.chars(c['flat']), 'width': c['width'], 'printed': [T.chars(l) for l in c['out']]})
+    ctx.cover['level1_rejected_by_width'] = by_width
+    ctx.cover['level1_wrapped_outputs'] = sum(1 for c in cases for r in c['runs'] if len(r['out']) > 1)
+    if cases:
+        c = cases[len(cases) // 2]
+        ctx.sample({'level': 1, 'items': T.chars(c['flat']), 'width': c['runs'][0]['width'], 'printed': [T.chars(l) for l in c['runs'][0]['out']]})
+
+
+# --------------------------------------------------------------------------------------------- level (ii)
+FEATURES = ('select', 'while', 'call', 'fcall', 'twod', 'assoc', 'section', 'exitcycle', 'labelled')
+WIDE = 10 ** 6
+
+
+def gen_programs(ctx, n):
+    from .. import lib_fm_long as G
+    out = []
+    for i in range(n):
+        g = G.LongGen(ctx.rng, FEATURES)
+        prog = g.program(nstmts=ctx.rng.randint(6, 12), depth=2, nest_levels=ctx.rng.choice([0, 0, 5, 12, 24]))
+        out.append(G.long_program_text(prog, ctx.rng))
+    return out
+
+
+def statement_at(lines, ln):
+    """(first line, last line) of the logical statement that contains physical line ln (1-based) -- for reports only."""
+    a = ln
+    while a > 1 and lines[a - 2].rstrip().endswith('&'):
+        a -= 1
+    b = ln
+    while b < len(lines) and lines[b - 1].rstrip().endswith('&'):
+        b += 1
+    return a, b
+
+
+def construct_of(line):
+    """Kind of statement for the normal-form key (first keyword of the statement)."""
+    s = line.strip().lstrip('&').strip()
+    m = re.match(r'^(\d+\s+)?([A-Za-z_]+)', s)
+    w = m.group(2).upper() if m else '?'
+    lab = 'labelled-' if m and m.group(1) else ''
+    if w in ('CALL', 'PRINT', 'WRITE', 'IF', 'ELSE', 'DO', 'SELECT', 'CASE', 'WHERE', 'FORALL', 'ALLOCATE', 'DEALLOCATE', 'USE', 'ASSOCIATE',
+             'SUBROUTINE', 'FUNCTION', 'INTEGER', 'REAL', 'LOGICAL', 'CHARACTER', 'TYPE', 'DATA', 'FORMAT'):
+        return lab + w
+    return lab + ('ASSIGNMENT' if '=' in s else w)
+
+
+def level2(ctx):
+    import concurrent.futures as cf
+    from loki import Sourcefile
+    from loki.backend.style import FortranStyle, IFSFortranStyle
+    if ctx.replay and ctx.replay['case'].get('lvl') == 2:
+        texts = [ctx.replay['case']['text']]
+    elif ctx.replay:
+        return
+    else:
+        texts = gen_programs(ctx, 24 if ctx.quick else 400)
+    styles = [('default', FortranStyle, 132), ('ifs', IFSFortranStyle, 132)]
+    if not ctx.quick:
+        styles.append(('default-w80', lambda **kw: FortranStyle(**{'linewidth': 80, **kw}), 80))
+
+    def preflight(i):
+        return T.gfortran_syntax(ctx.work, f'l2-{i}-orig', [('orig.f90', texts[i])], width='none')
+
+    with cf.ThreadPoolExecutor(max_workers=8) as ex:
+        pre = list(ex.map(preflight, range(len(texts))))
+    for i, (ok, err) in enumerate(pre):
+        if not ok:
+            raise MachineryError(f'C04 generator produced a program gfortran rejects:\n{err}\n{texts[i][:3000]}')
+    recs = []
+    t_parse = time.time()
+    for i, text in enumerate(texts):
+        sf = Sourcefile.from_source(text)
+        for sname, mk, width in styles:
+            try:
+                out = sf.to_fortran(style=mk())
+                wide = sf.to_fortran(style=mk(linewidth=WIDE))
+            except Exception as e:  # pylint: disable=broad-except
+                ctx.violation(f'fgen:raises:{type(e).__name__}', f'fgen raised {type(e).__name__}: {e} (style {sname})', {'lvl': 2, 'text': text})
+                continue
+            recs.append({'i': i, 'style': sname, 'width': width, 'out': out, 'wide': wide})
+    ctx.cover['level2_loki_wall_s'] = round(time.time() - t_parse, 1)
+
+    def post(k):
+        r = recs[k]
+        return T.gfortran_syntax(ctx.work, f"l2-{r['i']}-{r['style']}", [('out.f90', r['out'])], width=r['width'])
+
+    with cf.ThreadPoolExecutor(max_workers=8) as ex:
+        gf = list(ex.map(post, range(len(recs))))
+    cases = []
+    for r, (ok, err) in zip(recs, gf):
+        if ok is None:
+            raise MachineryError('gfortran timed out on a generated file')
+        r['gf_err'] = err
+        cases.append({'lvl': 2, 'width': r['width'], 'wide': T.lines_codes(r['wide']), 'out': T.lines_codes(r['out']), 'gf': bool(ok),
+                      'top': {}, 'flat': [], 'runs': []})
+    verdicts = ctx.validate('Trace_LineWrap', 'Trace_LineWrap', cases, timeout=3000, per_shard_min=3,
+                            extra_env={'JAVA_TOOL_OPTIONS': '-Xss256m'})
+    nlines = nwrapped = nlong_exempt = 0
+    clause_count = {}
+    for k, r in enumerate(recs):
+        olines = r['out'].split('\n')
+        wlines = r['wide'].split('\n')
+        nlines += len(olines)
+        nwrapped += sum(1 for l in olines if l.rstrip().endswith('&'))
+        nlong_exempt += sum(1 for l in olines if len(l) > r['width'])
+        ok, clause, n = verdicts[k][:3]
+        if ok:
+            continue
+        explained = False
+        for j in range(1, n + 1):
+            _f, cl, a, b = verdicts[f'{k}#{j}'][:4]
+            if cl == 'gfortran-rejects':
+                continue
+            explained = True
+            clause_count[cl] = clause_count.get(cl, 0) + 1
+            a0, a1 = statement_at(olines, max(1, min(a, len(olines))))
+            cons = construct_of(olines[a0 - 1])
+            what = f"fgen (style {r['style']}, width {r['width']}): {CLAUSES.get(cl.split(':')[0], cl)}; line {a} of the output\n" \
+                   f"--- printed statement ---\n" + '\n'.join(f'{len(l):4d} |{l}' for l in olines[a0 - 1:a1])
+            if cl.startswith('tokens') and b:
+                b0, b1 = statement_at(wlines, max(1, min(b, len(wlines))))
+                what += '\n--- the same statement printed without a width limit ---\n' + '\n'.join(wlines[b0 - 1:b1])[:1500]
+            ctx.violation(f'fgen:{cl}:{cons}', what, {'lvl': 2, 'text': texts[r['i']]})
+        if not explained:
+            # gfortran rejects an output that the reading accepts: report it on its own
+            clause_count['gfortran-rejects'] = clause_count.get('gfortran-rejects', 0) + 1
+            first = next((l.strip() for l in r['gf_err'].splitlines() if l.startswith('Error')), r['gf_err'][-200:])
+            ctx.violation('fgen:gfortran-rejects:' + re.sub(r'\d+', 'N', first)[:80],
+                          f"gfortran -ffree-line-length-{r['width']} -Werror=line-truncation rejects the output (style {r['style']}):\n{r['gf_err'][:1500]}",
+                          {'lvl': 2, 'text': texts[r['i']]})
+    ctx.cover['level2_programs'] = len(texts)
+    ctx.cover['level2_outputs_checked'] = len(recs)
+    ctx.cover['level2_output_lines'] = nlines
+    ctx.cover['level2_continued_lines'] = nwrapped
+    ctx.cover['level2_lines_longer_than_width'] = nlong_exempt
+    ctx.cover['level2_gfortran_rejected'] = sum(1 for ok, _ in gf if not ok)
+    ctx.cover['level2_rejected_by_clause'] = clause_count
+    if recs:
+        r = recs[0]
+        wl = [l for l in r['out'].split('\n') if l.rstrip().endswith('&')][:3]
+        ctx.sample({'level': 2, 'style': r['style'], 'some continued lines': wl})
 
 
 def run(ctx):
     if not ctx.replay:
         ctx.mc('MC_LineWrap', 'MC_LineWrap' if ctx.quick else 'MC_LineWrap_thorough', timeout=1500, coverage=False)
     t0 = time.time()
-    level1(ctx)
+    if not (ctx.replay and ctx.replay['case'].get('lvl') == 2):
+        level1(ctx)
     ctx.cover['level1_wall_s'] = round(time.time() - t0, 1)
+    t0 = time.time()
+    level2(ctx)
+    ctx.cover['level2_wall_s'] = round(time.time() - t0, 1)
     ctx.assumptions += [
         'level (i): items whose boundaries are token boundaries and that contain no `&`/`!` outside literals (checked per case by '
-        'TLC: Aligned); widths 12..20, continuation strings " &" + ["& ", "  & "]',
+        'TLC: Aligned); widths 12..32, continuation strings " &" + ["& ", "  & "]',
+        'level (ii): generated module programs (lib_fm_long.LongGen) parsed with the FP frontend; styles FortranStyle and '
+        'IFSFortranStyle (thorough: also linewidth 80); the reference is the same IR printed with linewidth 10**6',
+        'tokens: names/numbers, character literals (verbatim), two-character operators, single punctuation; comments and '
+        'preprocessor lines carry no tokens; OpenMP/OpenACC-style sentinel continuation (pragmas) is not interpreted',
+        'exempt lines: only a trailing comment is beyond the width, or one token is itself longer than the width',
     ]
